@@ -10,7 +10,7 @@ open DEvo.Ser
 def cfg : PyCfg :=
   { seps := DEvo.Generated.qSeparators, singleChildFull := DEvo.Generated.qSingleChildFull,
     combOps := DEvo.Generated.combOperators, combMethods := DEvo.Generated.combMethods,
-    combParens := DEvo.Generated.combParens }
+    combParens := DEvo.Generated.combParens, keepSubmodules := DEvo.Generated.keepSubmodules }
 
 def kv (k : String) (v : V) : V := .tuple (.cons (.str k) (.cons v .nil))
 def qa : V := .q none false (.cons (kv "a" (.int 1)) .nil)
@@ -59,10 +59,20 @@ theorem C13_fixed_witnesses :
     roundTrip cfg (comb "#" fA fB) = .value (comb "#" fA fB) := by
   refine ⟨by decide, by decide, by decide, by decide, by decide, by decide, by decide⟩
 
-/-- F49: `Lower` lives in django.db.models.functions; `models.Lower` does not exist -/
+def lowerName : V := .obj "django.db.models.functions.text.Lower" (.cons (.str "name") .nil) .nil
+
+/-- F49 (repaired for django.db.models sub-modules): `Lower` lives in django.db.models.functions.text;
+`models.Lower` does not exist -/
 theorem C13_cex_function :
-    roundTrip cfg (.obj "django.db.models.functions.Lower" (.cons (.str "name") .nil) .nil)
-      = .loadError (.attributeError "django.db.models.functions.Lower") := by decide
+    roundTrip .pinned lowerName = .loadError (.attributeError "django.db.models.functions.text.Lower") := by decide
+
+/-- …and is written `models.functions.text.Lower` by the current source -/
+theorem C13_fixed_function : roundTrip cfg lowerName = .value lowerName := by decide
+
+/-- F49, remaining part: a class outside django.db.models is written as a bare name that nothing imports -/
+theorem C13_cex_foreign_class :
+    roundTrip cfg (.obj "myapp.expressions.Double" (.cons fA .nil) .nil)
+      = .loadError (.nameError "myapp.expressions.Double") := by decide
 
 /-- F50: a non-negated Q child with its parent's connector is merged into the parent on load -/
 theorem C13_cex_q_flattened :
